@@ -258,7 +258,7 @@ func c06RandCases(tier string) int {
 	if tier == "thorough" {
 		return 8000
 	}
-	return 20
+	return 100
 }
 
 func init() {
